@@ -42,7 +42,7 @@ CONFIG = {
                             'c18.errors': 500},
                   'thorough': {'c18.lambda': 200000}},
     'must_sig': ['print:two_branch_child', 'print:constant',
-                 'lambda:unused_argument', 'err:missing_variable', 'chain:3',
+                 'lambda:unused_argument', 'err:missing_variable', 'err:after_settled_prefix', 'chain:3',
                  'text:multiline',
                  'chain:4', 'chain:5',
                  'err:syntax'],
@@ -367,6 +367,61 @@ def error_cases(i):
                           extra={'finding': None})
 
 
+def error_contexts():
+    """A missing variable / a non-Boolean construct placed at every position
+    of flat and nested and/or/&/| chains whose OTHER operands already decide
+    the value (constants, a and not a, a or not a).  A parser that stops
+    evaluating a chain once its value is settled, or that simplifies x & 0
+    before looking at x, never validates the offending operand."""
+    from pyModelChecking.BDD import OBDD
+    settled = ['0', '1', 'False', 'True', 'a and not a', 'a or not a',
+               '(a & ~a)', '(a | ~a)', '(a and 0)', '(b or 1)', 'not 1',
+               '~0', 'a', 'not b']
+    shapes = ['%(P)s and %(X)s', '%(P)s or %(X)s', '%(X)s and %(P)s',
+              '%(X)s or %(P)s', '(%(P)s) & (%(X)s)', '(%(P)s) | (%(X)s)',
+              '(%(X)s) & (%(P)s)', '(%(X)s) | (%(P)s)',
+              '%(P)s and b and %(X)s', '%(P)s or b or %(X)s',
+              'b and %(P)s and %(X)s', 'b or %(P)s or %(X)s',
+              '(%(P)s and %(X)s) or b', 'b and (%(P)s or %(X)s)',
+              'not (%(P)s and %(X)s)', '~((%(P)s) | (%(X)s))',
+              '%(P)s and (b or %(X)s)',
+              '%(P)s or (b and %(X)s)']
+    bad = [('z', RuntimeError, 'missing variable'),
+           ('not zz', RuntimeError, 'missing variable'),
+           ('(a & z)', RuntimeError, 'missing variable'),
+           ('(a + b)', SyntaxError, 'non-Boolean syntax'),
+           ('2', SyntaxError, 'non-Boolean syntax'),
+           ('f(a)', SyntaxError, 'non-Boolean syntax'),
+           ('(-a)', SyntaxError, 'non-Boolean syntax')]
+    n = 0
+    for P in settled:
+        for sh in shapes:
+            for X, exc, what in bad:
+                e = sh % {'P': P, 'X': X}
+                for form in ('expr', 'lambda'):
+                    if (n + (form == 'lambda')) % 3 == 2:
+                        n += 1
+                        continue           # two of three, alternating forms
+                    n += 1
+                    LOG.hit('c18.errors')
+                    LOG.sig['err:after_settled_prefix'] += 1
+                    try:
+                        if form == 'expr':
+                            o = OBDD(e, ['a', 'b', 'c'])
+                        else:
+                            o = OBDD('lambda a,b,c: %s' % e)
+                        got = 'built %s' % o
+                    except exc:
+                        continue
+                    except Exception as ex:
+                        got = mon.fmt_exc(ex)
+                    LOG.violation('c18.errors', PROP,
+                                  {'expr': e, 'form': form}, got,
+                                  exc.__name__,
+                                  note=what + ' beside operands that already '
+                                  'decide the value')
+
+
 def run(ctx):
     r = gen.rng(ctx.seed, PROP, 'main')
     E2 = enum_exprs(2)
@@ -397,6 +452,8 @@ def run(ctx):
     chains(ctx, gen.rng(ctx.seed, PROP, 'chains'), 1600 if ctx.quick
            else 30000)
     error_cases(0)
+    error_contexts()
+    error_contexts()
 
 
 def replay(ctx, rep):
@@ -442,3 +499,4 @@ def replay(ctx, rep):
         chains(ctx, gen.rng(ctx.seed, PROP, 'chains'), 1600 if ctx.quick
            else 30000)
     error_cases(0)
+    error_contexts()
